@@ -994,7 +994,8 @@ def translate_module(pyfile, entries, header_imports=(), known=None):
     known = dict(known or {})   # FnInfo of functions translated elsewhere (header_imports must provide them)
     hashes = {}
     out = ['(* GENERATED by tools/py2coq.py from %s — do not edit; regenerated on every check run *)'
-           % os.path.relpath(pyfile, '/repo'),
+           % (os.path.relpath(pyfile, '/repo') if os.path.abspath(pyfile).startswith('/repo/')
+              else os.path.basename(pyfile)),
            'From PV Require Import Lib.Py.']
     for h in header_imports:
         out.append(h)
